@@ -1376,7 +1376,13 @@ func (g *Gen) faultTx() Op {
 				}
 			}
 		}
-		return Op{K: "recover", Creator: who, Provider: prov, Faults: fs}
+		rop := Op{K: "recover", Creator: who, Provider: prov, Faults: fs}
+		if r.Chance(20) {
+			// header and entries disagree: the sender names itself as the provider while the entries accuse another
+			rop.Creator = []int{1, 2, 3, 3, 3}[r.Intn(5)]
+			rop.Provider = rop.Creator + 1
+		}
+		return rop
 	}
 	op := Op{K: "report", Creator: reporter, Provider: prov, Faults: fs}
 	if r.Chance(10) {
